@@ -4,12 +4,10 @@ C10 (no server input can crash the client), codec group Basic.
 `K.dec_total : ∀ s, K.dec s ≠ .panic` for every decoder of `Model/Codec/Basic.lean`, by the
 closure lemmas of `NoPanic` (`Lemmas/CodecBasic.lean`) along the decoder's syntax.
 
-One decoder can panic: LANGUAGE. `LanguagePackage.ReadFrom` computes `int(totalLength) - 1` and hands
-it to `ch.String`, i.e. `make([]byte, -1)` for a declared length 0 (`Language.dec_panic_witness`;
-real code: `pkg dec 21 - 0000000000` answers `panic`). `Language.dec_panic_only_len0` shows that
-this is the only way: with any other declared length the decoder does not panic.
-(LANGUAGE is a client-to-server package; the client's reader only meets it if a server sends the
-token 0x21.)
+C10 holds for every decoder of the group. LANGUAGE was the exception (declared length 0 →
+`Bytes(-1)` → `makeslice` panic); since commit c622599 `ReadFrom` rejects the length 0 right after the
+length field: `Language.dec_len0` (`pkg dec 21 - 0000000000` and `pkg dec 21 - 00000000` answer `err`),
+and `int(totalLength) - 1` is never negative at the read (`Language.dec_total`).
 
 Not covered here (noted for C10's allocation bound): the declared lengths that `PacketQueue.Bytes`
 allocates before it checks availability. In this group only LANGUAGE can declare more than 64 KiB
@@ -52,8 +50,8 @@ theorem envStep_np (st : EnvState) : NoPanic (envStep st) := by
 theorem capStep_np (st : CapState) : NoPanic (capStep st) := by unfold capStep; np_auto
 
 theorem EnvChange.dec_total : ∀ s, EnvChange.dec s ≠ .panic := by
-  refine np_of_fuel EnvChange.decFuel (fun f => ?_)
-  unfold EnvChange.decFuel
+  show NoPanic EnvChange.dec
+  unfold EnvChange.dec
   refine np_bind np_u16 (fun length => np_bind (np_loop _ _ envStep_np _ _) (fun st => ?_))
   np_auto
 
@@ -63,32 +61,27 @@ theorem Capability.dec_total : ∀ s, Capability.dec s ≠ .panic := by
   refine np_bind np_u16 (fun total => np_bind (np_loop _ _ capStep_np _ _) (fun st => ?_))
   np_auto
 
-/-- FALSE for LANGUAGE: `∀ s, Language.dec s ≠ .panic`. Witness: declared length 0 followed by a
-status byte (`pkg dec 21 - 0000000000`). -/
-theorem Language.dec_panic_witness : Language.dec [0, 0, 0, 0, 0] = .panic := by decide
+theorem Language.dec_total : ∀ s, Language.dec s ≠ .panic := by
+  show NoPanic Language.dec
+  unfold Language.dec
+  refine np_bind np_u32 (fun total => ?_)
+  by_cases ht : total = 0
+  · rw [if_pos ht]; exact np_fail
+  · rw [if_neg ht]
+    exact np_bind np_u8 (fun _ => np_bind (np_takeInt_nonneg (by omega)) (fun _ => np_pure _))
 
-/-- the panic needs the declared length 0 (and the status byte to be there) -/
-theorem Language.dec_panic_only_len0 (s : Bytes) (h : Language.dec s = .panic) :
-    P.u32 s = .ok 0 4 ∧ 5 ≤ s.length := by
-  unfold Language.dec at h
-  rcases bind_panic_inv h with h1 | ⟨total, n, h1, h2⟩
-  · exact absurd h1 (np_u32 s)
-  · obtain ⟨hn, hlen⟩ := uintLE_ok_inv h1
-    subst hn
-    rcases bind_panic_inv h2 with h3 | ⟨status, m, h3, h4⟩
-    · exact absurd h3 (np_u8 _)
-    · have hm := u8_ok_len h3
-      simp only [List.length_drop] at hm
-      by_cases ht : total = 0
-      · subst ht; exact ⟨h1, by omega⟩
-      · have : NoPanic (P.takeInt ((total : Int) - 1) >>= fun cmd =>
-            (Pure.pure ({ status, cmd } : Language) : P Language)) :=
-          np_bind (np_takeInt_nonneg (by omega)) (fun _ => np_pure _)
-        exact absurd h4 (this _)
+/-- what LANGUAGE answers for the declared length 0: an error as soon as the four length bytes are
+there, whatever follows (before the repair: a panic once the status byte was there) -/
+theorem Language.dec_len0 (rest : Bytes) : Language.dec (0 :: 0 :: 0 :: 0 :: rest) = .err 4 := by
+  have h : P.u32 (0 :: 0 :: 0 :: 0 :: rest) = .ok 0 4 := parses_u32 0 (by decide) rest
+  unfold Language.dec
+  simp only [Bind.bind, P.bind, h]
+  rfl
 
-/-- with a declared length of at least 1 LANGUAGE does not panic -/
+/- declared lengths ≥ 1 parse as before -/
 example : Language.dec [4, 0, 0, 0, 0, 115, 101, 108] = .ok ⟨0, [115, 101, 108]⟩ 8 := by decide
 example : Language.dec [1, 0, 0, 0, 7] = .ok ⟨7, []⟩ 5 := by decide
-example : Language.dec [0, 0, 0, 0] = .notEnough := by decide
+example : Language.dec [0, 0, 0, 0] = .err 4 := by decide
+example : Language.dec [0, 0, 0] = .notEnough := by decide
 
 end Dblib.Props.C10.Basic
